@@ -339,8 +339,13 @@ def reference(desc: dict[str, Any]) -> dict[int, dict[str, np.ndarray]]:
 def build_rank(desc: dict[str, Any], rank: int) -> Any:
     """The pytato DictOfNamedArrays of *rank* (public API only)."""
     import pytato as pt
-    from pytato.distributed.nodes import make_distributed_recv, staple_distributed_send
+    from pytato.distributed.nodes import (
+        make_distributed_recv,
+        make_distributed_send,
+        make_distributed_send_ref_holder,
+    )
     node: dict[int, Any] = {}
+    send_objs: dict[int, Any] = {}
     order = [it for it in desc["items"] if it["rank"] == rank]
     # receives have no operands: build them first so that fault-injected "back edges"
     # (a payload that uses a later receive) can be expressed
@@ -366,9 +371,15 @@ def build_rank(desc: dict[str, Any], rank: int) -> Any:
                 r = r.tagged(pt.tags.ImplStored())
             node[it["id"]] = r
         elif k == "send":
-            node[it["id"]] = staple_distributed_send(
-                node[it["data"]], dest_rank=it["dest"], comm_tag=dec_tag(it["tag"]),
-                stapled_to=node[it["stapled"]])
+            if it.get("same_send_as") in send_objs:
+                # the SAME DistributedSend object stapled a second time
+                node[it["id"]] = make_distributed_send_ref_holder(
+                    send_objs[it["same_send_as"]], node[it["stapled"]])
+            else:
+                send_objs[it["id"]] = make_distributed_send(
+                    node[it["data"]], dest_rank=it["dest"], comm_tag=dec_tag(it["tag"]))
+                node[it["id"]] = make_distributed_send_ref_holder(
+                    send_objs[it["id"]], node[it["stapled"]])
     outs = {name: node[i] for name, i in desc["outputs"][str(rank)].items()}
     # (the partitioner's mappers check for duplicates: hand over a duplicate-free graph, as
     # pytato's own distributed examples do)
@@ -558,6 +569,10 @@ def faults(desc: dict[str, Any]) -> list[tuple[str, dict[str, Any]]]:
             # users of the first holder keep using it; make the duplicate reachable
             names = d["outputs"][str(it["rank"])]
             names[f"dup{nid}"] = nid
+            # the same duplicate built by stapling the very same send object twice
+            d2 = copy.deepcopy(d)
+            next(i for i in d2["items"] if i["id"] == nid)["same_send_as"] = it["id"]
+            out.append(("duplicate-send-same-object", d2))
         else:
             # a second, DISTINGUISHABLE receive for the same (source, tag): structurally equal
             # receive nodes are one node (value semantics), i.e. one receive
